@@ -66,6 +66,17 @@ def _loop_body_nodes(cfg, L):
     return [cfg.nodes[i] for i in sorted(L["body_ids"]) if cfg.nodes[i].ast is not None and cfg.nodes[i] is not L["head"]]
 
 
+def _free_locals(e: ast.AST, selfn: str) -> set[str]:
+    """Local names an expression reads, without comprehension / lambda variables and the receiver."""
+    bound = set()
+    for x in ast.walk(e):
+        if isinstance(x, ast.comprehension):
+            bound |= {y.id for y in ast.walk(x.target) if isinstance(y, ast.Name)}
+        if isinstance(x, ast.Lambda):
+            bound |= {a.arg for a in x.args.args}
+    return {x.id for x in ast.walk(e) if isinstance(x, ast.Name) and isinstance(x.ctx, ast.Load)} - bound - {selfn}
+
+
 def _reads_self_state(e: ast.AST, selfn: str) -> list[str]:
     out = []
     for n in ast.walk(e):
@@ -147,8 +158,42 @@ def analyse_engine(ctx: Ctx, ci, f, cfg, in_loop):
                 obs.append(ctx.ob("R11.1", f, call, detail=f"{ci.name}: `{p.id}` is loop-carried from the step result on every back-edge path", construct=label))
                 # R11.2 entry value
                 outside = [d for d in defs_all.get(p.id, []) if not any(d is getattr(b.ast, "value", None) for b in body)]
-                ok_entry = bool(outside) and all(any(is_self_attr(x, "current_population", selfn) for x in ast.walk(d)) for d in outside)
-                obs.append(ctx.ob("R11.2", f, call, status=OK if ok_entry else VIOLATION, detail=f"loop-entry value of `{p.id}` derives from self.current_population" if ok_entry else f"{ci.name}: the first generation of a metaepoch is not bred from the deme's current population (`{p.id}` = {[norm(d) for d in outside]})", construct=label + ":entry"))
+                import copy
+
+                from ..core import _Subst
+
+                outside_r = [_Subst({k: v for k, v in defs_all.items() if k != p.id}, 3).visit(copy.deepcopy(d)) for d in outside]
+                ok_entry = bool(outside) and all(any(is_self_attr(x, "current_population", selfn) for x in ast.walk(d)) for d in outside_r)
+                definite = bool(outside) and any(any(is_self_attr(x, None, selfn) and x.attr in ("_history", "all_individuals", "_sprout_seed", "best_individual") for x in ast.walk(d)) for d in outside_r)
+                obs.append(ctx.ob("R11.2", f, call, status=OK if ok_entry else VIOLATION if definite else INCONCLUSIVE, detail=f"loop-entry value of `{p.id}` derives from self.current_population" if ok_entry else f"{ci.name}: the first generation of a metaepoch is not bred from the deme's current population (`{p.id}` = {[norm(d) for d in outside]})", construct=label + ":entry"))
+            elif _free_locals(p, selfn) & {t for b in body for t in _targets(b.ast)}:
+                # an expression over locals, some of which are assigned in the loop: the ones assigned there must be loop-carried
+                # from the step result on every back-edge path (names never assigned in the loop are constants of the metaepoch)
+                verdicts = []
+                for nm in sorted(_free_locals(p, selfn)):
+                    assigns = [b for b in body if nm in _targets(b.ast)]
+                    if not assigns:
+                        continue
+                    good = [b for b in assigns if isinstance(b.ast, (ast.Assign, ast.AnnAssign)) and b.ast.value is not None and (_names(b.ast.value) & derived)]
+                    if not good:
+                        verdicts.append((VIOLATION, f"`{nm}` is reassigned in the loop but not from the step's result ({sorted(results)}): `{assigns[0].label}`"))
+                        continue
+                    leak = None if n in good else cfg.find_path(n, head, avoid=lambda x: x in good)
+                    if leak is not None:
+                        verdicts.append((VIOLATION, f"on some path around the loop `{nm}` is not updated from the previous generation"))
+                    elif [b for b in assigns if b not in good]:
+                        verdicts.append((VIOLATION, f"`{nm}` is also assigned from something other than the previous generation"))
+                    else:
+                        verdicts.append((OK, f"`{nm}` is loop-carried from the step result on every back-edge path"))
+                bad_v = [v for v in verdicts if v[0] == VIOLATION]
+                if bad_v:
+                    obs.append(ctx.ob("R11.1", f, call, status=VIOLATION, detail=f"{ci.name}: {bad_v[0][1]}", construct=label))
+                else:
+                    obs.append(ctx.ob("R11.1", f, call, detail=f"{ci.name}: parent expression `{norm(p)[:50]}`: {verdicts[0][1]}", construct=label))
+                    carried_names = [nm for nm in sorted(_free_locals(p, selfn)) if any(nm in _targets(b.ast) for b in body)]
+                    outside = [d for nm in carried_names for d in defs_all.get(nm, []) if not any(d is getattr(b.ast, "value", None) for b in body)]
+                    ok_entry = bool(outside) and all(any(is_self_attr(x, "current_population", selfn) for x in ast.walk(d)) for d in outside)
+                    obs.append(ctx.ob("R11.2", f, call, status=OK if ok_entry else INCONCLUSIVE if not outside else VIOLATION, detail=f"loop-entry value of `{', '.join(carried_names)}` derives from self.current_population" if ok_entry else f"{ci.name}: the first generation of a metaepoch is not bred from the deme's current population ({[norm(d) for d in outside]})", construct=label + ":entry"))
             else:
                 reads = _reads_self_state(p, selfn)
                 # state written on back-edge paths of the loop body
@@ -235,4 +280,4 @@ def r11_5(ctx: Ctx):
     return out
 
 
-RULES = [("R11", r11, 12), ("R11.4", r11_4, 2), ("R11.5", r11_5, 19)]
+RULES = [("R11", r11, 12), ("R11.4", r11_4, 2), ("R11.5", r11_5, 16)]
